@@ -30,6 +30,10 @@ def shards(tier, seed):
 	out.append(dict(name='neg', kind='neg', nworlds=6 if tier == 'quick' else 40))
 	out.append(dict(name='dirs', kind='dirs'))
 	out.append(dict(name='cli', kind='cli', nworlds=3 if tier == 'quick' else 12))
+	for s_ in out:
+		if s_.get('kind') in ['pos'] and not s_.get('sanitizer'):
+			s_['contracts'] = ['C04']
+	out.append(dict(name='suite-contracts', kind='suite-contracts', which=['C04'], tests=['tests/db', 'tests/test_query.py']))
 	return out
 
 
